@@ -1018,12 +1018,19 @@ impl<'a, 'b> Gen<'a, 'b> {
         let arrays: Vec<VarInfo> = self
             .visible()
             .into_iter()
-            .filter(|v| matches!(v.ty, Ty::VarArr(n) if n >= 2) && v.protected.is_none() && self.assigned.contains(&v.key))
+            .filter(|v| {
+                matches!(v.ty, Ty::VarArr(n) if n >= 2)
+                    && v.protected.is_none()
+                    && (self.assigned.contains(&v.key) || self.p.elementwise_first)
+            })
             .collect();
         if arrays.is_empty() {
             return None;
         }
         let a = arrays[self.t.below(arrays.len())].clone();
+        // (an array declared without initialiser gets its first elements here; the right-hand sides
+        // below are generated while it is still unreadable)
+        let read_between = self.t.chance(110);
         let Ty::VarArr(n) = a.ty else { return None };
         let i = self.t.below(n);
         let j = (i + 1 + self.t.below(n - 1)) % n;
@@ -1042,6 +1049,7 @@ impl<'a, 'b> Gen<'a, 'b> {
         self.saw_data = saved || d;
         self.taint(a.key, d);
         let (first, second) = if self.t.chance(200) { ((i, rhs1), (j, rhs2)) } else { ((j, rhs2), (i, rhs1)) };
+        let first_index = first.0;
         // the second write may sit in another basic block (inside a branch)
         let split = self.t.chance(100);
         for (n, (k, rhs)) in [first, second].into_iter().enumerate() {
@@ -1056,6 +1064,7 @@ impl<'a, 'b> Gen<'a, 'b> {
                 stmts.push(st);
             }
         }
+        self.assigned.insert(a.key);
         // a read of one of the two elements into a scalar local, if there is one
         let scalars: Vec<VarInfo> =
             self.local_targets().into_iter().filter(|v| v.ty == Ty::Var && v.key != a.key).collect();
@@ -1076,7 +1085,13 @@ impl<'a, 'b> Gen<'a, 'b> {
                 self.tainted.insert(x.key);
             }
             let lhs = Expr::Var { id: self.ids.next(), name: x.name.clone(), access: vec![] };
-            stmts.push(Stmt::Assign { id: self.ids.next(), lhs, op: AssignOp::Var, rhs, reversed: false });
+            let read = Stmt::Assign { id: self.ids.next(), lhs, op: AssignOp::Var, rhs, reversed: false };
+            if read_between && k == first_index {
+                // write, read of the element just written, second write
+                stmts.insert(1, read);
+            } else {
+                stmts.push(read);
+            }
             self.assigned.insert(x.key);
         }
         Some(Stmt::Block { id: self.ids.next(), stmts })
